@@ -5,6 +5,7 @@ import Eru.Lock.Redis
 import Eru.Lock.Etcd
 import Eru.Lock.Ctx
 import Eru.Lock.Spec
+import Eru.Lock.ModelFacts
 /- Oracle for the lock group (C18–C21): runs the model on the case, compares with the
    implementation's result and evaluates the specification predicates on the implementation's
    output. Not part of any model or proof. -/
@@ -61,16 +62,15 @@ def stripPrefix? (s p : String) : Option String :=
   if s.startsWith p then some (s.drop p.length).toString else none
 
 def parseKey (s : String) : Key :=
-  match stripPrefix? s "plock_" with
+  match stripPrefix? s (groupPrefix gPod) with
   | some r => ⟨gPod, r⟩
-  | none => match stripPrefix? s "clock_" with
+  | none => match stripPrefix? s (groupPrefix gWorkload) with
     | some r => ⟨gWorkload, r⟩
-    | none => match stripPrefix? s "cnode_op_" with
+    | none => match stripPrefix? s (groupPrefix gNodeOp) with
       | some r => ⟨gNodeOp, r⟩
       | none => ⟨3, s⟩
 
-def renderKey (k : Key) : String :=
-  (if k.group == gPod then "plock_" else if k.group == gWorkload then "clock_" else if k.group == gNodeOp then "cnode_op_" else "") ++ k.name
+def renderKey (k : Key) : String := k.render
 
 def evOfJson (j : Json) : Ev Key :=
   match jarr j with
@@ -264,13 +264,13 @@ def handleSched (j : Json) : Json :=
     else (jarr (jget impl "slow")).map fun b => if jbool b then "slow" else ""
   let model : List String :=
     if redis then
-      (Redis.replay ⟨ttl, wait, 500⟩ Redis.init (cmds.filterMap redisCmd)).map Redis.Res.str
+      (Redis.replay (Facts.redisParams ttl wait) Redis.init (cmds.filterMap redisCmd)).map Redis.Res.str
     else
       (Etcd.replay ttl Etcd.init (cmds.filterMap etcdCmd)).map Etcd.Res.str
   let wellFormed := if redis then cmds.all (fun c => (redisCmd c).isSome) else cmds.all (fun c => (etcdCmd c).isSome)
   let agree := wellFormed && model == ires && !jhas impl "panic"
   let scmds : List Spec.SCmd := cmds.map fun c => ⟨opOf c.op, c.c, c.dt⟩
-  let fin := Spec.specRun redis ttl wait 500 {} scmds (ires.map outOf) (islow.map flagOf)
+  let fin := Spec.specRun redis ttl wait Facts.redisRetryIntervalMs {} scmds (ires.map outOf) (islow.map flagOf)
   let hasAsync := cmds.any (·.op == "lockasync")
   let hasLoss := cmds.any (fun c => c.op == "revoke" || c.op == "observe" || c.op == "expire")
   let contended := ires.any (fun r => r == "not-obtained" || r == "locked" || r == "timeout" || r == "blocked")
@@ -284,7 +284,7 @@ def handleSched (j : Json) : Json :=
   -- design took > 300 ms, client-side deadlines hit): mutual exclusion and missing loss signals are still judged on the results,
   -- outcome equality and the timing clauses are not
   if jbool (jget impl "timing_off") then
-    let v := ((Spec.specRun redis ttl wait 500 {} scmds (ires.map outOf) (islow.map flagOf)).viol.eraseDups).filter fun x =>
+    let v := ((Spec.specRun redis ttl wait Facts.redisRetryIntervalMs {} scmds (ires.map outOf) (islow.map flagOf)).viol.eraseDups).filter fun x =>
       x == "C18:two-holders-within-lease" || x == "C19:redis-ttl-expiry-not-signalled" || x == "C19:etcd-loss-not-signalled"
     verdict id true (jstrs model) v "timing-off" true else
   verdict id agree (jstrs model) fin.viol.eraseDups cls (!contended && !fin.overlap && !hasLoss)
